@@ -45,3 +45,39 @@ pub use handles::{AsyncCache, Cache};
 pub use listener::{EvictionListener, EvictionReason};
 pub use metrics::MetricsSnapshot;
 pub use runtime::TaskSpawner;
+
+/// Verification control surface (virtual clock, expiry kernel); only under `--cfg excsn_fibre_verif`.
+#[cfg(excsn_fibre_verif)]
+pub mod __verif {
+  use std::sync::atomic::{AtomicU32, AtomicU64, Ordering::Relaxed};
+  use std::time::Duration;
+
+  static NOW_SECS: AtomicU64 = AtomicU64::new(0);
+  static NOW_NANOS: AtomicU32 = AtomicU32::new(0);
+
+  /// Sets the time since the cache epoch returned by the crate's clock.
+  pub fn set_now(d: Duration) {
+    NOW_SECS.store(d.as_secs(), Relaxed);
+    NOW_NANOS.store(d.subsec_nanos(), Relaxed);
+  }
+  pub fn now() -> Duration {
+    Duration::new(NOW_SECS.load(Relaxed), NOW_NANOS.load(Relaxed))
+  }
+
+  /// The crate-private cache entry, for harnesses of the expiry arithmetic.
+  pub struct Entry(crate::entry::CacheEntry<u8>);
+  impl Entry {
+    /// `CacheEntry::new` at the current virtual time.
+    pub fn new(ttl: Option<Duration>, tti: Option<Duration>) -> Self {
+      Entry(crate::entry::CacheEntry::new(0u8, 1, ttl, tti))
+    }
+    /// The refresh every TTI-refreshing read performs.
+    pub fn touch(&self) {
+      self.0.update_last_accessed();
+    }
+    /// The test every read path applies before serving the entry.
+    pub fn is_expired(&self, tti: Option<Duration>) -> bool {
+      self.0.is_expired(tti)
+    }
+  }
+}
